@@ -686,8 +686,9 @@ Proof.
   specialize (H _ E). cbn in H. apply Z.leb_le in H. exact H.
 Qed.
 
-Theorem sim_after_migration : forall (sigT : Type) (recover : Z -> Z -> sigT -> option Z) s from to sg s',
-  wf s -> qcoverb s = true -> balposb s = true ->
+(* (what is needed of the balances is only that the target's are not negative) *)
+Theorem sim_after_migration_w : forall (sigT : Type) (recover : Z -> Z -> sigT -> option Z) s from to sg s',
+  wf s -> qcoverb s = true -> (forall d, 0 <= bal_of s to d) ->
   migrate_tx sigT recover s from to sg = Ok s' -> sim from to s s'.
 Proof.
   intros sigT recover s from to sg s' W Q B H.
@@ -705,13 +706,18 @@ Proof.
   - apply (proj2 (mv_clock _ _ _ _ M)).
   - intros v. assert (D : del_of s to v = None) by (apply (to_no_del to s C)).
     split; [exact D|]. split; [apply (start_none_without_del s W); exact D | apply (to_no_ubd to s C)].
-  - intros d. apply balpos_nonneg. exact B.
+  - exact B.
   - apply (mv_bal _ _ _ _ M).
   - apply (mv_del _ _ _ _ M).
   - apply (mv_start _ _ _ _ M).
   - apply (mv_ubd _ _ _ _ M).
   - intros t. rewrite (mv_ubdq _ _ _ _ M). destruct (existsb (Z.eqb t) (ubd_times s from)); [apply qrel_map_ren | apply qrel_refl].
 Qed.
+
+Theorem sim_after_migration : forall (sigT : Type) (recover : Z -> Z -> sigT -> option Z) s from to sg s',
+  wf s -> qcoverb s = true -> balposb s = true ->
+  migrate_tx sigT recover s from to sg = Ok s' -> sim from to s s'.
+Proof. intros sigT recover s from to sg s' W Q B H. eapply sim_after_migration_w; eauto. intros d. apply balpos_nonneg. exact B. Qed.
 
 (* ---------- follow-ups, then maturation ---------- *)
 Lemma payout_filter : forall t a (m : list (Z * Z * ubd_rec)),
